@@ -1662,6 +1662,8 @@ pub fn run(args: &Args) -> Shard {
     let mut index = from;
     let mut done = 0;
     while done < count && started.elapsed() < budget && !rt::tainted() {
+        #[cfg(feature = "typed")]
+        crate::typed::begin_case(seed, index);
         let out = match scenario.as_str() {
             "mixed" => run_mixed(focus, seed, index, clean),
             "same-key" => run_same_key(focus, seed, index),
@@ -1689,9 +1691,13 @@ pub fn run(args: &Args) -> Shard {
         shard.counts.merge(&out.counts);
         if out.nontrivial { shard.sample(out.sample); }
         for finding in out.findings { shard.add_finding(finding); }
+        #[cfg(feature = "typed")]
+        for finding in crate::typed::end_case("conc", &scenario, focus, seed, index) { shard.add_finding(finding); }
         index += stride;
         done += 1;
     }
+    #[cfg(feature = "typed")]
+    crate::typed::ledger_counts(&mut shard.counts);
     if scenario != "bare" {
         let mut visits = J::obj();
         for (site, n) in sched().visit_counts() { visits.set(format!("{:?}", site), J::Int(n as i128)); }
